@@ -43,6 +43,28 @@ theorem C13_text_append_is_source (x : String) (xs : List String) (ts : String) 
   unfold textG textAppendGuard
   by_cases hg : m.groups < 3 <;> by_cases hn : m.name = x <;> simp [hg, hn, firstTracked]
 
+/-- **C13_first_tracked_loop_is_source**: the innermost loop as a whole — for every list of tracked names, one record is appended
+    exactly when some iteration's regenerated append condition holds (the first such iteration leaves the loop), none otherwise -/
+theorem C13_first_tracked_loop_is_source (metrics : List String) (ts : String) (m : Match) :
+    (if m.groups < 3 then [] else firstTracked metrics ts m) =
+      match metrics.find? (fun x => textG true false false (decide (m.groups < 3)) (decide (m.name ≠ x)) textAppendGuard) with
+      | some _ => [{ ts := ts, name := m.name, value := m.value }]
+      | none => [] := by
+  induction metrics with
+  | nil => simp [firstTracked]
+  | cons x xs ih =>
+    rw [C13_text_append_is_source x xs ts m, List.find?_cons]
+    cases textG true false false (decide (m.groups < 3)) (decide (m.name ≠ x)) textAppendGuard with
+    | true => simp
+    | false => simpa using ih
+
+/-- at most one record per match, and it carries the match's own name and value and the line's timestamp -/
+theorem C13_first_tracked_at_most_one (metrics : List String) (ts : String) (m : Match) :
+    (if m.groups < 3 then [] else firstTracked metrics ts m) = [] ∨
+    (if m.groups < 3 then [] else firstTracked metrics ts m) = [{ ts := ts, name := m.name, value := m.value }] := by
+  rw [C13_first_tracked_loop_is_source]
+  cases metrics.find? (fun x => textG true false false (decide (m.groups < 3)) (decide (m.name ≠ x)) textAppendGuard) <;> simp
+
 /-- a line without any tracked name as a substring is skipped: nothing is appended, whatever it matches -/
 theorem C13_text_prefilter_is_source (metrics : List String) (l : TextLine) (h : l.isMetricLine = false) (a b c d : Bool) :
     lineRecs metrics l = [] ∧ textG l.isMetricLine a b c d textAppendGuard = false ∧
